@@ -212,11 +212,34 @@ class Checker:
         def one(arg):
             k, batch = arg
             d = '%s_%d' % (self.rundir, k % 4)
-            try:
-                rc, lines, se = self.ctx.run_lines([self.hbin, d, '20'], '\n'.join(batch) + '\n', timeout=timeout)
-            except Exception as e:      # subprocess timeout: the watchdog itself failed
-                rc, lines, se = 98, [], repr(e)
-            return rc, lines, se
+
+            def call(ops_, wd):
+                try:
+                    return self.ctx.run_lines([self.hbin, d, str(wd)], '\n'.join(ops_) + '\n', timeout=timeout)
+                except Exception as e:      # subprocess timeout: the watchdog itself failed
+                    return 98, [], repr(e)
+
+            done = []
+            rest = list(batch)
+            rc, se = 0, ''
+            while rest:
+                rc, lines, se = call(rest, int(os.environ.get("C08_WATCHDOG", "20")))
+                if rc == 3 and lines and 'hang=1' in lines[-1] and len(lines) <= len(rest):
+                    # the 20 s watchdog fired: a machine-wide stall looks the same as a hang, so the
+                    # op is repeated alone with a 90 s watchdog; only a second hang is reported
+                    i = len(lines) - 1
+                    rc1, l1, se1 = call([rest[i]], 90)
+                    if rc1 == 0 and len(l1) == 1:
+                        self.ctx.count('watchdog-retry-ok')
+                        done += lines[:i] + l1
+                        rest = rest[i + 1:]
+                        rc = 0
+                        continue
+                    done += lines
+                    return 3, done, se + se1
+                done += lines
+                break
+            return rc, done, se
 
         with ThreadPoolExecutor(max_workers=4) as ex:
             # batches k, k+4, k+8 … share a directory but never run at the same time only if
@@ -492,12 +515,18 @@ def run(ctx):
 
     # ---- correspondence: seq (exact, comp=none) ------------------------------------------------
     seq_ops, seq_impl, seq_src = [], [], []
+    nbig_seq = 0
     for r, (_, meta) in zip(runs, ops):
         if not r.ok or meta['comp'] != 'none' or meta['fmt'] == 'mock' or meta.get('rlimit') or meta.get('area') or meta.get('pbf_fail'):
             continue
         b = base.get((meta['fmt'], 'none', meta['fs'], meta['sc']))
         if b is None or not b.ok:
             continue
+        if meta['sc'] != SCRIPT:
+            # the model materialises the file as a byte list: compare a sample of the long runs
+            nbig_seq += 1
+            if nbig_seq > (60 if quick else 600) and nbig_seq % 29 != 0:
+                continue
         seq_ops.append('seq comp=none fsync=%d chunks=%s fault=%s' % (meta['fs'], ','.join(map(str, b.chunks)), meta['fault']))
         loud = r.first_loud()[1] or 'none'
         res = loud if not loud.startswith('exc:io') else 'exc:io'
